@@ -256,7 +256,7 @@ def use_simple_layer(v: fw.Verdict, prop: str, layer: Dict[str, Any], layer_name
 TRAV_BUDGET = {"quick": 3200, "thorough": 200000}
 # histories on a generated street graph (real OSMRoadNetwork): routes of several links, steps that end inside links
 OSM_OPTS = {"world": {"osm": True}, "hist": {}}
-OSM_BUDGET = {"quick": (48, 25), "thorough": (1500, 50)}
+OSM_BUDGET = {"quick": (48, 25), "thorough": (640, 50)}
 
 
 @register("C06")
